@@ -529,6 +529,13 @@ def run(ctx, config="all", traits=None, floor=None):
             elif d["name"] == a or norm_op(d["name"]) == norm_op(a):
                 ok = True     # op, wrapping_op and op_assign are one operation in ruint (the operators are wrapping)
         # a same-name delegate must be a *different* function computing the same operation:
+        if not ok and d.get("vis") != "pub" and not (prog.impl_of(d) or {}).get("trait") and d["file"] == b["file"] \
+                and fk.split("::")[0] in ("BitAnd", "BitOr", "BitXor", "BitAndAssign", "BitOrAssign", "BitXorAssign"):
+            # the bit operators have no inherent twin: their impls ARE the implementation.  Written through a private
+            # worker of the same file (`zip_limbs_with(self, rhs, |a, b| a | b)`), which operation the worker applies is
+            # arithmetic and not decided; totality and canonical results are R-TOTAL's and R-CANON's
+            rep.ok(key, where, "%s is implemented through the private worker %s: not decided" % (fk, short(dname)))
+            continue
         if not ok:
             rep.violation(key, where, "%s forwards to %s; the oracle table allows only %s" % (fk, short(dname), allowed))
             continue
